@@ -562,11 +562,14 @@ impl RunState {
                 let mut addr = self.reg(0);
                 loop {
                     let chr_raw = self.mem(addr);
-                    let chr_ascii = (chr_raw & 0xFF) as u8 as char;
-                    if chr_ascii == '\0' {
+                    // Writing terminates with a word of 0x0000 (not with a zero low byte)
+                    if chr_raw == 0 {
                         break;
                     }
-                    Output::Normal.print(chr_ascii);
+                    let chr_ascii = (chr_raw & 0xFF) as u8 as char;
+                    if chr_ascii != '\0' {
+                        Output::Normal.print(chr_ascii);
+                    }
                     addr = addr.wrapping_add(1);
                 }
                 stdout().flush().unwrap();
